@@ -461,7 +461,8 @@ func (e *Exec) doCall(common *ssa.CallCommon, fnv Val, recv *Val, args []Val, st
 	c := e.c
 	ci := e.lookupCallee(common, fnv)
 	sig := ci.sig
-	e.calleeSharesCells = ci.fn != nil && (ci.fn.Parent() != nil || len(ci.fn.FreeVars) > 0)
+	sharesCells := ci.fn != nil && (ci.fn.Parent() != nil || len(ci.fn.FreeVars) > 0)
+	e.calleeSharesCells = sharesCells
 	// coerce args to parameter types
 	all := args
 	if recv != nil {
@@ -590,6 +591,7 @@ func (e *Exec) doCall(common *ssa.CallCommon, fnv Val, recv *Val, args []Val, st
 		}
 		// effects
 		csc.results = rets
+		e.calleeSharesCells = sharesCells // (a nested call on a panic path may have changed it)
 		e.applyModifies(con, csc, st)
 		for _, gs := range con.GhostSets {
 			if gs.Post {
